@@ -153,6 +153,18 @@ theorem moved_follows (o : Opt) (cmd : Cmd) (cc : Conn) (fuel : Nat) (s : St) (r
   conv => lhs; unfold processLoop
   simp only [hc, hb, if_false, sendOne, ha, Bool.false_eq_true]
 
+/-- the connection a redirect is followed on is the one filed under the address named in the reply -/
+theorem redirect_goes_to_named_node (c : Client) (addr : Bytes) (prev : Conn) (slot : Nat) (isMove : Bool)
+    (h : ConnsOK' c.conns) : (redirectOrNew c addr prev slot isMove).1.addr = addr :=
+  redirectOrNew_addr c addr prev slot isMove (connsOK_of' c h)
+
+/-- …and the hypothesis is an invariant of the client: `_refresh` establishes it (given it held before, e.g. for
+    the connections made from InitAddress) and `redirectOrNew` preserves it -/
+theorem conns_filed_under_own_address (o : Opt) (c : Client) (gs : Groups) (addr : Bytes) (prev : Conn) (slot : Nat)
+    (isMove : Bool) (h : ConnsOK' c.conns) :
+    ConnsOK' (refreshConns o c gs).1 ∧ ConnsOK' (redirectOrNew c addr prev slot isMove).2.conns :=
+  ⟨refreshConns_ok' o c gs h, redirectOrNew_ok' c addr prev slot isMove h⟩
+
 /-- a reply that is neither a redirect nor retryable ends the loop and is what the caller gets -/
 theorem final_reply_returned (o : Opt) (cache : Bool) (cmd : Cmd) (cc : Conn) (fuel : Nat) (s : St) (resp : Reply) (red : Nat)
     (hc : classify resp = .none) :
